@@ -1572,6 +1572,31 @@ def make_call_args(n_undef, wrong):
     return m
 
 
+def m_undef_func_in_unused_indirect_type_where(s, rng):
+    """an undefined function in the WHERE rule of an INDIRECT type definition (`TYPE a = b;`) that nothing uses as the type of an
+    attribute, constant, parameter or local: it is reachable through a SELECT, as the underlying type of another type, or not at
+    all — only the pass over the type declarations themselves resolves its rule"""
+    ts = [t for t in s.types() if t.kind in ("ref", "enum")]
+    if not ts:
+        return None
+    base = rng.choice(ts)
+    t = TypeDecl(f"xin_{rng.randint(0, 99)}", "ref", ("N", base.name))
+    nm = f"nosuch_f{rng.randint(0, 99)}"
+    r = Rule("wt0", "tcall", fn=nm, argc=1)
+    t.rules.append(r)
+    s.decls.insert(rng.randint(0, len(s.decls)), t)
+    how = rng.choice(["unused", "select", "underlying"])
+    if how == "select":
+        s.decls.append(TypeDecl(f"xis_{rng.randint(0, 99)}", "select", [t.name]))
+    elif how == "underlying":
+        s.decls.append(TypeDecl(f"xiu_{rng.randint(0, 99)}", "ref", ("N", t.name)))
+    return Fault("undefined-function", s, [("UNDEFINED_FUNC", [nm]), ("MISSING_SELF", [r.label])],
+                 note=f"WHERE rule of the indirect type {t.name} = {base.name} ({how})")
+
+
+MUTATORS["undef_func_in_unused_indirect_type_where"] = m_undef_func_in_unused_indirect_type_where
+
+
 def m_missing_super_after_good(s, rng):
     """the offending subtype stands AFTER a subtype that does list the supertype (the `found` flag of
     ENTITYcheck_missing_supertypes is per subtype): p SUPERTYPE OF (ONEOF (good…, x)) with x not naming p"""
